@@ -24,16 +24,36 @@ Anchors in /repo:
     gapic/generator/generator.py: _render_template's `%sub` walk → `subpackageNames`, `subpackageOrder`, `subWalk` (S1)
   gapic/schema/wrappers.py: Service.oauth_scopes             → `oauthScopes`                       (S5, ordered input)
 
+  gapic/schema/api.py (round 2 of the deepening; the dictionaries the templates iterate UNSORTED):
+    Python `dict` (insertion-ordered, `d[k] = v`, `{**a, **b}`, `dict.update`)  → `OMap`, `OMap.set`, `OMap.update`, `OMap.ofPairs`
+    API._get_methods_from_service (loop over `service_yaml_config.http.rules`)  → `methodsFromService`
+    API.has_location_mixin / has_iam_mixin / has_operations_mixin, _has_iam_overrides → `hasApi`, `iamOverrides`
+    API.mixin_api_methods / mixin_api_signatures / mixin_http_options           → `mixinApiMethods`, `mixinApiSignatures`, `mixinHttpOptions`
+    API.http_options (dict comprehension keyed by selector), HttpRule.try_parse_http_rule's
+      presence test                                                             → `httpOptions`, `HttpBinding.parses`
+    API.enforce_valid_method_settings (duplicate selector / unknown method ⇒ raise) +
+      API.all_method_settings                                                   → `allMethodSettings`
+    Generator.get_response: `output_files.update(...)` per template on an OrderedDict → `responseFiles`
+    Jinja `d|dictsort`                                                          → `dictsort`
+    iteration of `collections.ChainMap` (`API.services` / `messages` / `enums`)  → `chainMapKeys`
+    the seed6 mutation (`for fqn in methods.keys() & rules.keys()`, a set)      → `methodsFromServiceViaSet` (counterexample only)
+  API.subpackages follows cc7f824 (`subpackage[level]`, nested sub-packages)     → `subpackageNames`
+
 NOT modelled (reached only through the inventory classification + the multi-process byte comparison):
-  * Jinja's evaluation of the templates themselves, `dictsort`, `unique`, `map`/`join` filters;
+  * Jinja's evaluation of the templates themselves, `unique`, `map`/`join` filters;
   * `Proto.python_modules` (a sorted set of `imp.Import` tuples; covered generically by
     `sort_total_order_perm_invariant`, its `__eq__`/`__hash__` mismatch on `alias` is not modelled);
   * snippet index / gapic_metadata JSON (`json.dumps(sort_keys=True)`, lists sorted from ordered inputs: S5);
-  * `Generator.get_response`'s OrderedDict of files beyond the sub-package walk, `Options.build`
+  * what `_render_template` returns for ONE template (file naming is C11's model; here the per-template
+    name lists are taken from the real run and only their accumulation is modelled), `Options.build`
     (option parsing order), samplegen's validator sets (S3), `API.get_extended_operations_services`
     (S2 by service name; exercised by generated compute-style APIs, no instance theorem);
+  * `utils.convert_uri_fieldnames` on the uri of a parsed http rule and the reserved-name suffix of its body
+    (C12/C13's subject; the model keeps the raw strings), `MIXINS_MAP[name]` as a table (only its key set
+    matters for order: every mixin method name is a key, checked by the harness);
+  * `API.all_library_settings` (only ever indexed by `naming.proto_package`, never iterated);
   * everything outside set/sort/impurity sites is a function of ordered inputs by Python's semantics
-    (insertion-ordered dicts, lists), which is taken as given.
+    (lists; insertion-ordered dicts are now `OMap`), which is taken as given.
 -/
 namespace GapicModel.Model.Determinism
 
@@ -204,11 +224,12 @@ def retryOrder (s : List Str) : List Str := jinjaSort s
 /-! ### S1 instance: sub-packages and the order of the response's files -/
 
 /-- the set comprehension of `API.subpackages`:
-`{p.meta.address.subpackage[0] for p in protos if len(sp) > level and sp[:level] == view}` as the
-list of candidates in proto order (NB `[0]`, not `[level]`, exactly as the source has it). -/
+`{p.meta.address.subpackage[level] for p in protos if len(sp) > level and sp[:level] == view}`,
+`level = len(view)`, as the list of candidates in proto order (`[level]` since
+`fix: sub-packages of a sub-package are named by their own level`; it was `[0]` before). -/
 def subpackageNames (view : List Str) (subs : List (List Str)) : List Str :=
   subs.filterMap fun sp =>
-    if view.length < sp.length ∧ sp.take view.length = view then sp.head? else none
+    if view.length < sp.length ∧ sp.take view.length = view then sp[view.length]? else none
 
 /-- keys of the OrderedDict `API.subpackages` when the set is iterated in order `s`: `sorted(set)`.
 `Generator._render_template` walks `api_schema.subpackages.values()` for every `%sub` template and
@@ -233,6 +254,142 @@ def joinWith (sep : Char) : List Str → Str
 comes BEFORE the strip, as in the source. -/
 def oauthScopes (isSpace : Char → Bool) (opt : Str) : List Str :=
   ((splitOn ',' opt).filter fun i => !i.isEmpty).map (strip isSpace)
+
+/-! ### S5: insertion-ordered dictionaries (Python `dict` / `OrderedDict`) -/
+
+/-- a Python `dict` with `str` keys: the items in insertion order -/
+abbrev OMap (V : Type) := List (Str × V)
+
+namespace OMap
+
+def keys {V : Type} (d : OMap V) : List Str := d.map (·.1)
+
+/-- `d[k] = v`: an existing key keeps its POSITION and takes the new value, a new key goes last -/
+def set {V : Type} : OMap V → Str → V → OMap V
+  | [], k, v => [(k, v)]
+  | (k', v') :: rest, k, v => if k' = k then (k', v) :: rest else (k', v') :: set rest k v
+
+/-- `d[k]` / `d.get(k)` -/
+def get? {V : Type} (d : OMap V) (k : Str) : Option V := (d.find? (fun p => p.1 = k)).map (·.2)
+
+/-- `a.update(b)` / `{**a, **b}` / a loop of `a[k] = v` over the items `b` in order -/
+def update {V : Type} (a : OMap V) (b : List (Str × V)) : OMap V := b.foldl (fun d p => d.set p.1 p.2) a
+
+/-- `{k: v for (k, v) in ps}` -/
+def ofPairs {V : Type} (ps : List (Str × V)) : OMap V := update [] ps
+
+end OMap
+
+/-- one `google.api.HttpRule` binding as far as `try_parse_http_rule` looks at it: `verb` is
+`WhichOneof("pattern")` (`""` when unset, `"custom"` for a custom pattern), `uri` the pattern's value -/
+structure HttpBinding where
+  verb : Str
+  uri : Str
+  body : Str
+deriving DecidableEq, Repr
+
+/-- `HttpRule.try_parse_http_rule(rule) is not None` -/
+def HttpBinding.parses (b : HttpBinding) : Bool :=
+  !b.verb.isEmpty && decide (b.verb ≠ "custom".toList) && !b.uri.isEmpty
+
+/-- one entry of `http.rules` of the service yaml -/
+structure YamlRule where
+  selector : Str
+  rule : HttpBinding
+  additional : List HttpBinding
+deriving DecidableEq, Repr
+
+/-- `[http] + list(http.additional_bindings)`, parsed, `None`s dropped -/
+def YamlRule.options (r : YamlRule) : List HttpBinding := (r.rule :: r.additional).filter (·.parses)
+
+/-- the first loop of `_get_methods_from_service`: `methods[fqn] = method` for every method of every service
+of the mixin module, as (fqn, method name) pairs -/
+abbrev MethodTable := List (Str × Str)
+
+def MethodTable.name? (t : MethodTable) (selector : Str) : Option Str := (t.find? (fun e => e.1 = selector)).map (·.2)
+
+/-- `API._get_methods_from_service(service_pb)`: the second loop walks `service_yaml_config.http.rules`
+IN YAML ORDER and does `methods_to_generate[x.name] = x` for every rule whose selector names a method
+of the module. -/
+def methodsFromService (t : MethodTable) (rules : List YamlRule) : OMap YamlRule :=
+  OMap.ofPairs (rules.filterMap fun r => (t.name? r.selector).map fun n => (n, r))
+
+/-- the method names that a sequence of yaml selectors picks from a mixin module, in that sequence's order
+(specification side of `methodsFromService`: what its key order is a function of) -/
+def selNames (t : MethodTable) (selectors : List Str) : List Str := selectors.filterMap t.name?
+
+/-- the three mixin modules (locations_pb2, iam_policy_pb2, operations_pb2) -/
+structure MixinTables where
+  loc : MethodTable
+  iam : MethodTable
+  ops : MethodTable
+
+def locApi : Str := "google.cloud.location.Locations".toList
+def iamApi : Str := "google.iam.v1.IAMPolicy".toList
+def opsApi : Str := "google.longrunning.Operations".toList
+
+/-- `has_location_mixin` & co.: `len(list(filter(lambda api: api.name == NAME, yaml.apis))) > 0` -/
+def hasApi (apis : List Str) (name : Str) : Bool := apis.any (· = name)
+
+/-- `API._has_iam_overrides`; `serviceMethods` = the method names of every service of the API -/
+def iamOverrides (T : MixinTables) (apis : List Str) (serviceMethods : List (List Str)) (rules : List YamlRule) : Bool :=
+  hasApi apis iamApi &&
+    serviceMethods.any fun ms => (methodsFromService T.iam rules).keys.any fun m => decide (m ∈ ms)
+
+/-- `API.mixin_api_methods`: three conditional `{**methods, **…}` in the fixed order Locations, IAM, Operations -/
+def mixinApiMethods (T : MixinTables) (apis : List Str) (serviceMethods : List (List Str)) (rules : List YamlRule) :
+    OMap YamlRule :=
+  let m0 : OMap YamlRule := []
+  let m1 := if hasApi apis locApi then m0.update (methodsFromService T.loc rules) else m0
+  let m2 := if !iamOverrides T apis serviceMethods rules && hasApi apis iamApi
+            then m1.update (methodsFromService T.iam rules) else m1
+  if hasApi apis opsApi then m2.update (methodsFromService T.ops rules) else m2
+
+/-- `API.mixin_api_signatures`: `{name: MIXINS_MAP[name] for name in self.mixin_api_methods}` (the value
+is represented by its key) -/
+def mixinApiSignatures (m : OMap YamlRule) : OMap Str := OMap.ofPairs (m.map fun p => (p.1, p.1))
+
+/-- `API.mixin_http_options`: `for s in api_methods: res[s] = [parsed rules]` -/
+def mixinHttpOptions (m : OMap YamlRule) : OMap (List HttpBinding) := OMap.ofPairs (m.map fun p => (p.1, p.2.options))
+
+/-- `API.http_options`: `{rule.selector: make_http_options(rule) for rule in yaml.http.rules}` -/
+def httpOptions (rules : List YamlRule) : OMap (List HttpBinding) := OMap.ofPairs (rules.map fun r => (r.selector, r.options))
+
+/-- the seed6 change, for the counterexample only: the second loop of `_get_methods_from_service`
+rewritten as `for fqn in methods.keys() & rules.keys()` — a SET of selectors, iterated in order `s` -/
+def methodsFromServiceViaSet (t : MethodTable) (rules : List YamlRule) (s : List Str) : OMap YamlRule :=
+  OMap.ofPairs (s.filterMap fun sel =>
+    match t.name? sel, (rules.reverse.find? fun r => r.selector = sel) with
+    | some n, some r => some (n, r)
+    | _, _ => none)
+
+/-- one `google.api.MethodSettings` entry of `publishing.method_settings` -/
+structure MethodSetting where
+  selector : Str
+  longRunning : Bool
+  autoPopulated : List Str
+deriving DecidableEq, Repr
+
+/-- `API.all_method_settings`: `enforce_valid_method_settings` raises (`none`) on a repeated selector or
+on an entry that `valid` rejects (unknown method, AIP-4235 conditions: C18's subject, abstracted), then
+`{ms.selector: MethodSettings(...) for ms in yaml.publishing.method_settings}`. -/
+def allMethodSettings (valid : MethodSetting → Bool) (ms : List MethodSetting) : Option (OMap MethodSetting) :=
+  if decide (ms.map (·.selector)).Nodup && ms.all valid then some (OMap.ofPairs (ms.map fun m => (m.selector, m))) else none
+
+/-- `Generator.get_response`: `output_files = OrderedDict(); output_files.update(sample_output);
+for template in client_templates: output_files.update(self._render_template(template, …))`;
+the response lists `output_files.values()`.  (`_render_template` itself returns an OrderedDict per
+template; `update` walks its items in order.) -/
+def responseFiles {C : Type} (sample : List (Str × C)) (perTemplate : List (List (Str × C))) : OMap C :=
+  perTemplate.foldl OMap.update (OMap.ofPairs sample)
+
+/-- `list(collections.ChainMap(*maps))` (`API.services`, `API.messages`, `API.enums` are ChainMaps over the protos'
+dicts): `d = {}; for m in reversed(maps): d |= dict.fromkeys(m); iter(d)` — the LAST map's keys come first. -/
+def chainMapKeys (maps : List (List Str)) : List Str :=
+  (responseFiles ([] : List (Str × Unit)) (maps.reverse.map fun m => m.map fun k => (k, ()))).keys
+
+/-- Jinja `d|dictsort` (by key, `case_sensitive=False`): `sorted(d.items(), key=lambda i: lower(i[0]))` -/
+def dictsort {V : Type} (d : OMap V) : List (Str × V) := jinjaSortAttr (·.1) d
 
 /-! ### The pipeline: a response is a function of the outcomes of its sites -/
 
